@@ -335,6 +335,20 @@ def more_senders_than_slots(r):
     return cfg_line(r, 0, slots, r.choice(ORIGINS), False) + ' | ' + ' ; '.join(finish(ops))
 
 
+def late_sizing_case(r):
+    """SetN2kCANMsgBufSize once Open() has allocated the reassembly buffer (first poll of a cold node) but before the node is open (the
+    200 ms start delay): documented to have no effect - as many interleaved senders as the configured slots still complete (seed C02-17)"""
+    slots = r.choice([3, 4, 5])
+    late = r.choice([1, 2, slots + 4, 0])
+    streams = []
+    for i in range(slots):
+        m = Msg(r, r.choice(FAST_BCAST), 30 + i, 255, r.choice([13, 20, 34]), True, r.randrange(8))
+        streams.append(m.frames)
+    merged = [frame_op(*f) for f in interleave(r, streams)]
+    ops = ['P', 'T 1', 'P', 'T %d' % r.choice([0, 50, 199]), 'Z 1 %d' % late, 'T 250', 'P', 'T 10', 'P'] + sprinkle(r, merged, r.choice([0.0, 0.2]), [])
+    return cfg_line(r, 0, slots, r.choice(ORIGINS), False) + ' cold=1 | ' + ' ; '.join(finish(ops))
+
+
 def bam_occupancy_case(r):
     """ISO-TP broadcast announcements (never followed by data) share the slot table"""
     slots = r.choice([2, 3, 5])
